@@ -54,6 +54,26 @@ static int versions( bool verbose )
     if ( indications > 1 ) { std::printf( "REPRODUCED: the peripheral sent %zu LL_VERSION_IND PDUs on one connection\n", indications ); return 1; }
     return 0;
 }
+// one LL_VERSION_IND per connection, also when the response time out of the unanswered version exchange was stopped by the instant of a connection update
+static int versions_after_update( bool verbose )
+{
+    ll_t ll;
+    ll.respond_to( 37, valid_connection_request_pdu );
+    ll.ll_empty_pdus( 3 );
+    ll.ll_function_call( [&]{ ll.remote_versions_request(); } );
+    ll.ll_empty_pdus( 2 );
+    ll.ll_control_pdu( { 0x00, 0x01, 0x02, 0x00, 0x18, 0x00, 0x00, 0x00, 0x48, 0x00, 12, 0 } );   // LL_CONNECTION_UPDATE_IND, instant 12
+    ll.ll_empty_pdus( 10 );
+    bool again = false;
+    ll.ll_function_call( [&]{ again = ll.remote_versions_request(); } );
+    ll.ll_empty_pdus( 6 );
+    ll.run( 4 );
+    std::size_t indications = 0;
+    for ( const auto& ev : ll.connection_events() ) for ( const auto& pdu : ev.transmitted_data ) if ( pdu.size() >= 3 && ( pdu[ 0 ] & 3 ) == 3 && pdu[ 2 ] == 0x0c ) ++indications;
+    if ( verbose ) std::printf( "version exchange (unanswered), connection update at its instant, version exchange requested again (accepted: %d): %zu LL_VERSION_IND sent\n", again, indications );
+    if ( indications > 1 ) { std::printf( "REPRODUCED: the peripheral sent %zu LL_VERSION_IND PDUs on one connection (second request after a connection update stopped the response time out)\n", indications ); return 1; }
+    return 0;
+}
 // the central's version indication / PHY update is not the answer to a running connection parameter request
 static int foreign( bool verbose, int phy = 0 )
 {
@@ -121,6 +141,7 @@ int main( int argc, char** argv )
     int rc = 0;
     for ( int p = 0; p != 3; ++p ) rc |= play( p, true );
     rc |= versions( true );
+    rc |= versions_after_update( true );
     rc |= foreign( true );
     rc |= foreign( true, 1 );
     rc |= foreign( true, 2 );
